@@ -199,9 +199,66 @@ theorem fnode_check (n : Nat) (k : St MB → Bool)
 
 end
 
+section
+variable (var : Variant) (color : Color)
+
+/-- `fnode` restricted, at a node where the move is free, to the candidates `sel` picks -/
+def fnodeSel (sel : Tak.Move → Bool) (k : St MB → Bool) (s : St MB) : Bool :=
+  match turn miniBoard var color s with
+  | .error _ => false
+  | .ok (_, .resign) => !s.lastScripted
+  | .ok (r, .scripted m) =>
+    match mstep s.cur (Spec.decode m) with
+    | none => false
+    | some q => succ FM r s.cur m q true k
+  | .ok (r, _) =>
+    (fastCands var r s.cur).all fun m =>
+      !(sel m) || (!(accepted var r (mview s.cur) m) ||
+      match mstep s.cur (Spec.decode m) with
+      | none => true
+      | some q => succ FM r s.cur m q false k)
+
+/-- a node evaluated in two declarations: the candidates `sel` picks and the others -/
+theorem fnode_of_sel (sel : Tak.Move → Bool) (k : St MB → Bool) (s : St MB)
+    (h1 : fnodeSel var color sel k s = true) (h2 : fnodeSel var color (fun m => !sel m) k s = true) :
+    fnode var color k s = true := by
+  unfold fnodeSel at h1 h2
+  unfold fnode
+  cases ht : turn miniBoard var color s with
+  | error e => simp [ht] at h1
+  | ok v =>
+    obtain ⟨r, rep⟩ := v
+    cases rep with
+    | resign => simpa [ht] using h1
+    | scripted m => simpa [ht] using h1
+    | notMyTurn | search =>
+      simp only [ht] at h1 h2 ⊢
+      rw [List.all_eq_true] at h1 h2 ⊢
+      intro m hm
+      have a1 := h1 m hm
+      have a2 := h2 m hm
+      cases hsel : sel m with
+      | true => simpa [hsel] using a1
+      | false => simpa [hsel] using a2
+
+end
+
 /-- the whole evaluation: the first two plies enumerated, the states of ply 2 looked up -/
 def frameCheck (color : Color) (size mask : Nat) (tab : List (Nat × Key)) : Bool :=
   fnode .cairn color (fnode .cairn color (leaf size mask tab)) (minit size)
+
+/-- `frameCheck` for the first stones on the rows below `c` … -/
+def frameCheckLow (color : Color) (size mask : Nat) (tab : List (Nat × Key)) (c : Int) : Bool :=
+  fnodeSel .cairn color (fun m => decide (m.y < c)) (fnode .cairn color (leaf size mask tab)) (minit size)
+
+/-- … and on the other rows -/
+def frameCheckHigh (color : Color) (size mask : Nat) (tab : List (Nat × Key)) (c : Int) : Bool :=
+  fnodeSel .cairn color (fun m => !decide (m.y < c)) (fnode .cairn color (leaf size mask tab)) (minit size)
+
+theorem frameCheck_of_halves (color : Color) (size mask : Nat) (tab : List (Nat × Key)) (c : Int)
+    (h1 : frameCheckLow color size mask tab c = true) (h2 : frameCheckHigh color size mask tab c = true) :
+    frameCheck color size mask tab = true :=
+  fnode_of_sel .cairn color _ _ _ h1 h2
 
 /-- the table entries evaluated -/
 def tabOK (color : Color) (size : Nat) (tab : List (Nat × Key)) : Bool :=
